@@ -91,6 +91,9 @@ pub enum Call {
     MpInsertMember(u8, bool),
     /// a call on the second member of the MultiProgress
     TickSecond,
+    /// bars change hands between two MultiProgress objects: the shared bar is added to the other
+    /// MultiProgress (true) / the other one's member is added to this one (false)
+    MoveAcross(bool),
 }
 
 #[derive(Debug, Clone, Serialize, Deserialize)]
@@ -109,7 +112,7 @@ fn interval(k: u8) -> Duration {
     [Duration::from_millis(1), Duration::from_secs(1), Duration::from_secs(3600), Duration::from_secs(10 * 86400)][k as usize % 4]
 }
 
-fn exec(c: Call, pb: &ProgressBar, mp: &Option<MultiProgress>, second: &Option<ProgressBar>) {
+fn exec(c: Call, pb: &ProgressBar, mp: &Option<MultiProgress>, second: &Option<ProgressBar>, other: &Option<(MultiProgress, ProgressBar)>) {
     match c {
         Call::Update => pb.update(|s| s.set_pos(s.pos() + 1)),
         Call::EnableTick(k) => pb.enable_steady_tick(interval(k)),
@@ -176,6 +179,12 @@ fn exec(c: Call, pb: &ProgressBar, mp: &Option<MultiProgress>, second: &Option<P
                 back.tick();
             }
         }
+        Call::MoveAcross(out) => {
+            if let (Some(mp), Some((mp2, b2))) = (mp, other) {
+                let back = if out { mp2.add(pb.clone()) } else { mp.add(b2.clone()) };
+                back.tick();
+            }
+        }
         Call::TickSecond => {
             if let Some(second) = second {
                 second.tick();
@@ -197,10 +206,14 @@ fn body(p: &Prog) {
     let spy = Spy::default();
     let mut mp = None;
     let mut second = None;
+    let mut other: Option<(MultiProgress, ProgressBar)> = None;
     let pb = if p.in_multi {
         let m = MultiProgress::with_draw_target(ProgressDrawTarget::term_like(Box::new(spy.clone())));
         let pb = m.add(ProgressBar::with_draw_target(Some(10), ProgressDrawTarget::hidden()));
         second = Some(m.add(ProgressBar::with_draw_target(Some(5), ProgressDrawTarget::hidden())));
+        let m2 = MultiProgress::with_draw_target(ProgressDrawTarget::term_like(Box::new(Spy::default())));
+        let b2 = m2.add(ProgressBar::with_draw_target(Some(7), ProgressDrawTarget::hidden()));
+        other = Some((m2, b2));
         mp = Some(m);
         pb
     } else {
@@ -216,14 +229,15 @@ fn body(p: &Prog) {
         let pb = pb.clone();
         let mp = mp.clone();
         let second = second.clone();
+        let other = other.clone();
         hs.push(shuttle::thread::spawn(move || {
             for c in calls {
-                exec(c, &pb, &mp, &second);
+                exec(c, &pb, &mp, &second, &other);
             }
         }));
     }
     for c in &p.main {
-        exec(*c, &pb, &mp, &second);
+        exec(*c, &pb, &mp, &second, &other);
     }
     for h in hs {
         h.join().expect("worker thread panicked");
@@ -235,9 +249,15 @@ fn body(p: &Prog) {
     pb.enable_steady_tick(interval(3));
     pb.enable_steady_tick(interval(2));
     assert!(verif_sync::live_threads() <= 1, "LIFECYCLE: {} steady-tick threads alive after replacing the ticker", verif_sync::live_threads());
+    // a zero interval asks for nothing: it neither starts a ticker nor stops the one that runs
+    let before = verif_sync::live_threads();
+    pb.enable_steady_tick(Duration::ZERO);
+    assert_eq!(verif_sync::live_threads(), before, "LIFECYCLE: enable_steady_tick(0) changed the number of steady-tick threads");
     // finishing: no frame is painted after finish() has returned
-    // (the second member goes first: dropping it unfinished paints its final frame)
+    // (the second member goes first: dropping it unfinished paints its final frame; the shared bar may
+    // have moved to the other MultiProgress, whose own terminal is not the one watched here)
     drop(second);
+    drop(other);
     pb.reset();
     pb.finish();
     let frames = spy.flushes.load(Ordering::SeqCst);
@@ -467,6 +487,7 @@ fn call_strategy() -> BoxedStrategy<Call> {
         1 => Just(Call::DisableTickViaWeak),
         2 => (0u8..3, any::<bool>()).prop_map(|(w, a)| Call::MpInsertMember(w, a)),
         1 => Just(Call::TickSecond),
+        2 => any::<bool>().prop_map(Call::MoveAcross),
     ]
     .boxed()
 }
@@ -488,7 +509,17 @@ fn sched_strategy(tier: Tier) -> BoxedStrategy<SchedCase> {
             let removes = |v: &Vec<Call>| v.iter().any(|c| *c == Call::MpRemove);
             if removes(&main) || threads.iter().any(removes) {
                 for c in main.iter_mut().chain(threads.iter_mut().flatten()) {
-                    if matches!(c, Call::MpInsertAfter | Call::MpInsertBefore | Call::MpInsertMember(..)) {
+                    if matches!(c, Call::MpInsertAfter | Call::MpInsertBefore | Call::MpInsertMember(..) | Call::MoveAcross(_)) {
+                        *c = Call::MpAddOther;
+                    }
+                }
+            }
+            // remove / insert_before / insert_after name a member of *this* MultiProgress: a program that hands
+            // the shared bar to the other MultiProgress must not use it that way
+            let leaves = |v: &Vec<Call>| v.iter().any(|c| *c == Call::MoveAcross(true));
+            if leaves(&main) || threads.iter().any(leaves) {
+                for c in main.iter_mut().chain(threads.iter_mut().flatten()) {
+                    if matches!(c, Call::MpInsertAfter | Call::MpInsertBefore | Call::MpInsertMember(..) | Call::MpRemove) {
                         *c = Call::MpAddOther;
                     }
                 }
@@ -514,7 +545,7 @@ pub fn property() -> Property {
         ],
         parts: vec![Box::new(Gen::<SchedCase> {
             name: "schedules",
-            rule: "proptest generates the program (1-2 worker threads of 1-5 calls plus 0-5 calls on the main thread, on clones of one ProgressBar, optionally a member of a MultiProgress, ticker initially on or off, calls from update/enable_steady_tick(1 ms..10 days)/disable_steady_tick/tick/inc/set_message/set_length/finish/finish_and_clear/println/suspend/reset/clone+drop/getters/mp.println/mp.suspend/mp.remove/mp.add/mp.clear/mp.insert_before and insert_after with a new bar or with bars that are members already, in both directions and with a bar as its own anchor); shuttle generates 150 (thorough 3000) random or PCT(depth 1-3) schedules per program incl. bounded time-out choices; every execution ends with the lifecycle assertions (ticker thread count 0 after disable and after the last drop, <= 1 after replace, no frame after finish() returned); non-trivial = >= 2 threads touch the handle and a ticker op, update() or an installed ticker is involved; evaluations counts programs, each explored under that many schedules",
+            rule: "proptest generates the program (1-2 worker threads of 1-5 calls plus 0-5 calls on the main thread, on clones of one ProgressBar, optionally a member of a MultiProgress, ticker initially on or off, calls from update/enable_steady_tick(1 ms..10 days)/disable_steady_tick/tick/inc/set_message/set_length/finish/finish_and_clear/println/suspend/reset/clone+drop/getters/mp.println/mp.suspend/mp.remove/mp.add/mp.clear/mp.insert_before and insert_after with a new bar or with bars that are members already, in both directions and with a bar as its own anchor, bars handed from one MultiProgress to another and back from different threads); shuttle generates 150 (thorough 3000) random or PCT(depth 1-3) schedules per program incl. bounded time-out choices; every execution ends with the lifecycle assertions (ticker thread count 0 after disable and after the last drop, <= 1 after replace, no frame after finish() returned); non-trivial = >= 2 threads touch the handle and a ticker op, update() or an installed ticker is involved; evaluations counts programs, each explored under that many schedules",
             strategy: sched_strategy,
             cases: |t| t.pick(150, 3000),
             run: run_sched,
